@@ -205,6 +205,12 @@ fn run_backend(name: &str, backend: &Backend, case: &SatCase, rec: &mut Rec, fak
     Ok(verdicts)
 }
 
+/// The embedded backend alone (used by the libFuzzer target).
+pub fn run_embedded_only(case: &SatCase) -> Result<(), Failure> {
+    let mut rec = Rec::default();
+    run_backend("CadicalSolver", &embedded(), case, &mut rec, None).map(|_| ())
+}
+
 impl Prop for SatObj {
     type Case = SatCase;
     fn id(&self) -> &'static str {
@@ -228,6 +234,10 @@ impl Prop for SatObj {
     }
     fn n_cases(&self, tier: Tier) -> u32 {
         tier.pick(6_000, 150_000)
+    }
+    fn extra_phase(&self, tier: Tier, seed: u64, rec: &mut Rec) -> Result<(), (SatCase, Failure)> {
+        let seeds: Vec<Vec<u8>> = (0..8u8).map(|k| (0..96u8).map(|i| i.wrapping_mul(29).wrapping_add(k.wrapping_mul(7))).collect()).collect();
+        crate::fuzzphase::fuzz_phase::<SatCase>("sat_ops", tier, seed, rec, seeds, 1_000_000, 400)
     }
     fn run(&self, case: &SatCase, rec: &mut Rec) -> CheckResult {
         let fake = FakeSat::get();
